@@ -333,7 +333,7 @@ func runC09(env *Env) {
 	// the same set object sent again (retry after a refusal), GetBuffer called before SendSet
 	emit("tcp 1 0 full S P T 300 A 1 300 2 7 6 0 2 i16 0 8 18 0 4 ip nil ; S P D 300 A 1 300 2 7 6 0 2 i16 5 8 18 0 4 ip hex 20010db8000000000000000000000001 ; C 1 ; C 1 G ; C 1 R P D 300 A 1 300 2 7 6 0 2 i16 5 8 18 0 4 ip hex 0a000001 ;")
 	emit("udp 1 0 full S P T 300 A 1 300 2 7 6 0 2 i16 0 8 18 0 4 ip nil ; S P D 300 A 1 300 2 7 6 0 2 i16 5 8 18 0 4 ip nil G ; C 1 ; S P D 300 A 2 300 2 7 6 0 2 i16 6 8 18 0 4 ip hex 0a000002 G ; C 2 ;")
-	emit("tcp 1 0 full S P T 300 A 1 300 2 7 6 0 2 i16 0 8 18 0 4 ip nil ; S P D 300 A 1 300 2 7 6 0 2 i16 5 8 18 0 4 ip hex 0a000001 ; X 0 C 1 ; C 0 ; C 1 ;")
+	emit("tcp 1 0 full S P T 300 A 1 300 2 7 6 0 2 i16 0 8 18 0 4 ip nil ; S P D 300 A 1 300 2 7 6 0 2 i16 5 8 18 0 4 ip hex 0a000001 ; X - C 1 ; C 0 ; C 1 ;")
 	env.Count("shape/retry-fixed")
 	for i := 0; i < n/2; i++ {
 		emit(genC09Retry(env))
